@@ -121,7 +121,11 @@ def c07_1(ck, prog):
             continue
         ff = set().union(*[x[1] for x in hit])
         cc = set().union(*[x[2] for x in hit])
-        needcall = MATCH_CALLS.get(flag, set())
+        needcall = set(MATCH_CALLS.get(flag, set()))
+        # a comparison primitive may be spelled through the local helper or directly
+        for alts in ({'str_has_prefix', 'strncmp', 'memcmp'}, {'strcmp', '_dbus_string_equal_c_str'}):
+            if needcall & alts and cc & alts:
+                needcall -= alts
         missing = [f for f in fields if f not in ff]
         if needcall - cc:
             r.violation(key, mm.name, SIG, hit[0][3],
@@ -134,7 +138,7 @@ def c07_1(ck, prog):
     # each string key of the rule is compared with the same-named attribute of the message
     GETTER = {'interface': 'dbus_message_get_interface', 'member': 'dbus_message_get_member',
               'path': 'dbus_message_get_path', 'destination': 'dbus_message_get_destination'}
-    for b, i, c in mm.calls(('strcmp', 'str_has_prefix')):
+    for b, i, c in mm.calls(('strcmp', 'str_has_prefix', 'strncmp')):
         sides = [(k, a) for k, a in enumerate(c['args'][:2])]
         rf = [(k, a) for k, a in sides if is_member(a, None, 'BusMatchRule')]
         if len(rf) != 1:
